@@ -3,6 +3,7 @@
 From Coq Require Import List ZArith Bool.
 From IdV Require Import Doc.Doc Proofs.DocProofs Proofs.DocResolveProofs.
 Import ListNotations.
+From IdV Require Import Cred.Bitmap Did.DidParse Doc.UrlQuery Proofs.UrlQueryProofs.
 Open Scope Z_scope.
 
 (* the gate `check` says exactly: (P1) every embedded method's id occurs once among all relationship
@@ -93,3 +94,27 @@ Print Assumptions C04_resolve_no_scope.
 Print Assumptions C04_resolve_service.
 Print Assumptions C04_resolve_full_id.
 Print Assumptions C04_sets_ok_is_SetsOk.
+
+(* the query TEXT handed to resolve_method / resolve_service (DIDUrlQuery): the three forms the statement names reach the
+   structured query of the theorems above.  A full DID URL (DID without / ? #, then nothing or a path / query part, then #fragment)
+   matches an id exactly when the DID and the fragment are the id's; "#fragment", a relative URL ending in a fragment, and the
+   bare fragment match exactly the ids with that fragment *)
+Theorem C04_query_text_full_id : forall pfx did m frag d f,
+  starts_with pfx did = true -> no3 did -> mid_ok m -> ~ In 35%N frag -> frag <> [] ->
+  q_matches pfx (did ++ m ++ 35%N :: frag) d f = true <-> did = d /\ f = Some frag.
+Proof. exact matches_full. Qed.
+Print Assumptions C04_query_text_full_id.
+Theorem C04_query_text_fragment : forall pfx m frag d f, starts_with pfx (m ++ 35%N :: frag) = false -> ~ In 35%N frag -> frag <> [] ->
+  q_matches pfx (m ++ 35%N :: frag) d f = true <-> f = Some frag.
+Proof. intros pfx m frag d f H1 H2 H3. apply matches_fragment_only. apply query_relative; assumption. Qed.
+Print Assumptions C04_query_text_fragment.
+Theorem C04_query_text_bare_fragment : forall pfx frag d f, starts_with pfx frag = false -> ~ In 35%N frag -> frag <> [] ->
+  q_matches pfx frag d f = true <-> f = Some frag.
+Proof. intros pfx frag d f H1 H2 H3. apply matches_fragment_only. apply query_bare; assumption. Qed.
+Print Assumptions C04_query_text_bare_fragment.
+(* the pinned tree read every text starting with the letters "did" as a DID URL: the bare fragment "didcomm" matched nothing (repaired: a20822f) *)
+Theorem C04_query_text_pinned_refuted :
+  let didcomm := [100; 105; 100; 99; 111; 109; 109]%N in
+  (forall d, q_matches PFX_PINNED didcomm d (Some didcomm) = false) /\ (forall d, q_matches PFX_FIXED didcomm d (Some didcomm) = true).
+Proof. exact pinned_bare_fragment_refuted. Qed.
+Print Assumptions C04_query_text_pinned_refuted.
